@@ -1,0 +1,19 @@
+//go:build verif
+// +build verif
+
+package astisub
+
+import "time"
+
+func VerifParseDurationSTL(i string, framerate int) (time.Duration, error) {
+	return parseDurationSTL(i, framerate)
+}
+func VerifFormatDurationSTL(d time.Duration, framerate int) string {
+	return formatDurationSTL(d, framerate)
+}
+func VerifParseDurationSTLBytes(b []byte, framerate int) time.Duration {
+	return parseDurationSTLBytes(b, framerate)
+}
+func VerifFormatDurationSTLBytes(d time.Duration, framerate int) []byte {
+	return formatDurationSTLBytes(d, framerate)
+}
